@@ -179,5 +179,16 @@ for p in props:
         })
     else:
         m["not_applicable"].append({"property_id": pid, "reason": NA_REASON})
-json.dump(m, open(os.path.join(ROOT, "MANIFEST.json"), "w"), indent=1)
+# MANIFEST.json must be valid at all times: validate the new content first (tooling python has jsonschema), keep the old
+# file when it does not validate
+import subprocess, sys, tempfile
+tmp = tempfile.NamedTemporaryFile("w", suffix=".json", delete=False)
+json.dump(m, tmp, indent=1); tmp.close()
+chk = subprocess.run(["python3-vt", "-c", "import json,jsonschema,sys;jsonschema.validate(json.load(open(sys.argv[1])), json.load(open('/root/.vp/MANIFEST.schema.json')))", tmp.name],
+                     stdout=subprocess.PIPE, stderr=subprocess.PIPE, text=True)
+if chk.returncode != 0 and os.path.exists("/root/.vp/MANIFEST.schema.json"):
+    print("MANIFEST not written: the generated content does not validate:", chk.stderr.strip().splitlines()[-1][:300])
+    os.unlink(tmp.name)
+    sys.exit(1)
+os.replace(tmp.name, os.path.join(ROOT, "MANIFEST.json"))
 print("checks:", len(m["checks"]), "not_applicable:", len(m["not_applicable"]))
